@@ -283,7 +283,7 @@ func (Prop) Gen(seed int64, tier string) *harness.Case {
 		nOps = 40 + r.Intn(60)
 	}
 	kinds := []string{"NewEnv", "NewModule", "Define", "Define", "DefineGlobal", "Set", "Set", "Get", "Get", "Delete", "DeleteGlobal",
-		"DefineType", "DefineGlobalType", "Type", "Type", "ValueSymbols", "TypeSymbols", "Copy", "DeepCopy", "EnvFromPath", "EnvFromPath", "Addr", "String", "Alias"}
+		"DefineType", "DefineGlobalType", "Type", "Type", "ValueSymbols", "TypeSymbols", "Copy", "DeepCopy", "EnvFromPath", "EnvFromPath", "Addr", "String", "Alias", "AddrSet", "AddrSet"}
 	if nStubs > 0 {
 		kinds = append(kinds, "SetExt", "SetExt")
 	}
@@ -317,7 +317,7 @@ func (Prop) Gen(seed int64, tier string) *harness.Case {
 				nScopes++
 			}
 			op.Name = names[r.Intn(len(names))]
-		case "Define", "DefineGlobal", "Set", "Get", "Delete", "DeleteGlobal", "Addr":
+		case "Define", "DefineGlobal", "Set", "Get", "Delete", "DeleteGlobal", "Addr", "AddrSet":
 			op.Name = names[r.Intn(len(names))]
 			if r.Intn(8) == 0 {
 				op.Name = "ext0"
@@ -618,6 +618,37 @@ func (r *run) step(op Op) (msg string) {
 		if got != "ERR" && !ok {
 			return fmt.Sprintf("%+v: Addr succeeded for a name that is bound nowhere (points at %s)", op, got)
 		}
+	case "AddrSet":
+		// a write through the address of a binding (what `p = &a; *p = v` does in a script): it changes that one
+		// binding and nothing else - in particular no snapshot taken earlier. Only attempted where the model knows
+		// which binding Addr must find without consulting an external lookup, and where that binding holds an
+		// addressable number; when Addr refuses is the implementation's business.
+		var owner *mscope
+		for s := m; s != nil; s = s.parent {
+			if _, ok := s.vals[op.Name]; ok {
+				owner = s
+				break
+			}
+			if s.ext != nil {
+				break
+			}
+		}
+		if owner == nil {
+			break
+		}
+		mv := owner.vals[op.Name]
+		if !mv.addr || mv.mod != nil || mv.id == nilID {
+			break
+		}
+		v, err := e.Addr(op.Name)
+		if err != nil || v.Kind() != reflect.Ptr || v.Elem().Kind() != reflect.Int || !v.Elem().CanSet() {
+			break
+		}
+		if got := int(v.Elem().Int()); got != mv.id {
+			return fmt.Sprintf("%+v: Addr points at %d, the nearest binding is %d", op, got, mv.id)
+		}
+		v.Elem().SetInt(int64(op.Val))
+		owner.vals[op.Name] = mval{id: op.Val, addr: true}
 	case "Delete":
 		e.Delete(op.Name)
 		delete(m.vals, op.Name)
